@@ -131,6 +131,21 @@ CLAIMED["C17"].update(
 CLAIMED["C19"].update(
     text=CLAIMED["C19"]["text"].replace("(dedup_no_duplicates, dedup_first_wins, dedup_complete);", "(dedup_no_duplicates, dedup_first_wins, dedup_complete, member_origin); the archive's own metadata entries always come from memory, never from a stale file found in the target directory or an include (metadata_is_fresh);"))
 
+CLAIMED["C02"].update(
+    text=CLAIMED["C02"]["text"] + " One unit (Model/Attempts = the attempt loop of run_test_instance): at most one Finished, it is the unit's last action and carries exactly the outcomes of the attempts spawned, numbered 1..n in order (one_final_result); a refused start spawns and reports nothing (refused_start_runs_nothing). The attempt-loop model is also run as an acceptor of every test's observed history in the end-to-end runs.")
+CLAIMED["C07"].update(
+    text=CLAIMED["C07"]["text"] + " Attempt loop (Model/Attempts), for every policy, every behaviour of the processes and every pattern of acknowledgements: the loop never trips its expect on the backoff iterator (attempt_loop_never_panics), at most N+1 spawns numbered consecutively (attempts_bound), every attempt followed by another had failed (stop_on_success), a retry is spawned only after the dispatcher acknowledged it (no_retry_unless_acknowledged), un-refused units end in a pass or use all N+1 attempts (retried_until_pass_or_bound), the announced delays are the backoff iterator's (announced_delays_are_backoff).",
+    note="PARTIAL: that the delay is actually waited (pauses excluded) is Model/Unit's delay phase plus end-to-end timestamps; the loop model is tied to the code as an acceptor of real histories (spawned attempt numbers, final statuses, announced delays of every test in family mix) and by the cancel family, not in-process.")
+CLAIMED["C08"].update(
+    text=CLAIMED["C08"]["text"].replace("with test-threads = 1 at most one test runs (no_capture_serial).", "with test-threads = 1 at most one test runs (no_capture_serial); for every test group the accounted weight equals the sum over its alive members of min(threads-required, max-threads) and never exceeds max-threads (group_weight_step, group_weight_inv); the dispatch queue is a stable sort by descending priority of the (binary id, name)-ordered list (priority_queue_order)."),
+    note="PARTIAL: threads-required resolution against -j (imp.rs wiring) and real process lifetimes are end-to-end only (fixed scenarios: weight above a group's limit, a test heavier than the run, num-test-threads under -j).")
+CLAIMED["C14"].update(
+    text=CLAIMED["C14"]["text"] + " Lifted to the scheduler (SchedInv): a started test gets the least slot no alive test holds, distinct from theirs and below test-threads (start_inv, by pigeonhole), every operation preserves it (sched_inv_step), hence in every reachable state the global slots of alive tests are distinct and below the test-thread count (global_slots_distinct_and_below).",
+    note="PARTIAL: the group-slot lifting is per allocator only (same lemmas, not re-stated per group); stability across retries and the NEXTEST_TEST_* environment values are end-to-end only.")
+CLAIMED["C20"].update(
+    text=CLAIMED["C20"]["text"] + " Proved over the whole model parser, for EVERY input string and validity oracle: every recorded error span ends inside the input (spans_in_input) and a parse that yields no expression has recorded at least one error (result_or_error) — one invariant lemma per parser function, mutual induction on the fuel at the expression level; totality is by construction.",
+    note="Partial: the whole-expression print_parse_roundtrip rests on the correspondence (string, regex and matcher round trips are proved); regex/glob engine error spans are enveloped, not modelled; stack depth is outside the model (deep-nesting stream; known finding F4).")
+
 def main():
     hooks_commits = subprocess.run(["git", "-C", "/repo", "log", "--format=%h %s"], stdout=subprocess.PIPE).stdout.decode().split("\n")
     hooks = [l.split(" ")[0] for l in hooks_commits if "verif-hooks" in l]
